@@ -16738,11 +16738,20 @@ func (msg *BGPUpdate) Serialize(options ...*MarshallingOption) ([]byte, error) {
 
 func (msg *BGPUpdate) IsEndOfRib() (bool, Family) {
 	if len(msg.WithdrawnRoutes) == 0 && len(msg.NLRI) == 0 {
+		// A received UPDATE whose malformed attributes were discarded may be
+		// left with no attribute (or only the empty MP_UNREACH_NLRI): it is
+		// not an End-of-RIB marker, as the attribute length on the wire shows.
 		if len(msg.PathAttributes) == 0 {
+			if msg.TotalPathAttributeLen != 0 {
+				return false, Family(0)
+			}
 			return true, RF_IPv4_UC
 		} else if len(msg.PathAttributes) == 1 && msg.PathAttributes[0].GetType() == BGP_ATTR_TYPE_MP_UNREACH_NLRI {
 			unreach := msg.PathAttributes[0].(*PathAttributeMpUnreachNLRI)
 			if len(unreach.Value) == 0 {
+				if msg.TotalPathAttributeLen != 0 && int(msg.TotalPathAttributeLen) != unreach.Len() {
+					return false, Family(0)
+				}
 				return true, NewFamily(unreach.AFI, unreach.SAFI)
 			}
 		}
